@@ -85,13 +85,16 @@ Print Assumptions C11_expm1_partial.
    polar_angle x y t :=  -PI < t <= PI /\ x = r cos t /\ y = r sin t  with r = sqrt (x^2+y^2).
    (1) away from the origin the result is THE polar angle up to the distance of the double constant A_REAL_PI from pi
    (exactly the angle in the right half plane); (2) that distance is <= 2^-52 and A_REAL_PI_2 is half of A_REAL_PI;
-   (3) atan2(0,0) = 0; (4) the result itself never leaves (-PI, PI] (the constant is below pi) *)
+   (3) atan2(0,0) = 0; (4) the result itself never leaves (-PI, PI] (the constant is below pi);
+   (5), (6) a_real_rad2deg / a_real_deg2rad: multiplication by double constants within 2^-53 (relative) of 180/pi, pi/180 *)
 Theorem C11_atan2_partial :
   (forall x y, x <> 0 \/ y <> 0 ->
      exists theta, polar_angle x y theta /\ Rabs (real_atan2 R_ops y x - theta) <= Rabs (c_pi R_ops - PI)) /\
   (Rabs (c_pi R_ops - PI) <= / 4503599627370496 /\ c_pi_2 R_ops = c_pi R_ops / 2) /\
   real_atan2 R_ops 0 0 = 0 /\
-  (forall x y, - PI < real_atan2 R_ops y x <= PI).
+  (forall x y, - PI < real_atan2 R_ops y x <= PI) /\
+  (forall x, Rabs (real_rad2deg R_ops x - x * (180 / PI)) <= / 9007199254740992 * Rabs (x * (180 / PI))) /\
+  (forall x, Rabs (real_deg2rad R_ops x - x * (PI / 180)) <= / 9007199254740992 * Rabs (x * (PI / 180))).
 Proof. exact clause_atan2. Qed.
 Print Assumptions C11_atan2_partial.
 (* the body found in the repository before fix 4df114e (+-PI on the y axis) is not the polar angle: at (0,1) the angle is
@@ -242,6 +245,14 @@ Theorem C11_swap_strided : forall (T : Type) (d0 : T) (n : nat) (m : list T) (l 
     (forall a, (forall k, (k < n)%nat -> a <> (l + k * lc)%nat /\ a <> (r + k * rc)%nat) -> nth a m' d0 = nth a m d0).
 Proof. exact @swap__spec. Qed.
 Print Assumptions C11_swap_strided.
+(* a_real_swap (restrict: blocks do not overlap): the two blocks are exchanged, nothing else changes *)
+Theorem C11_swap : forall (T : Type) (d0 : T) (n : nat) (m : list T) (l r : nat),
+  (l + n <= length m)%nat -> (r + n <= length m)%nat -> (l + n <= r \/ r + n <= l)%nat ->
+  exists m', real_swap n m l r = Some m' /\
+    agrees d0 m' (length m) (fun k => if ((l <=? k) && (k <? l + n))%nat then nth (r + (k - l)) m d0
+                                      else if ((r <=? k) && (k <? r + n))%nat then nth (l + (k - r)) m d0 else nth k m d0).
+Proof. exact @swap_spec. Qed.
+Print Assumptions C11_swap.
 Theorem C11_swap_unit : forall (T : Type) (n : nat) (m : list T) (l r : nat), real_swap n m l r = real_swap_ n m l 1 r 1.
 Proof. exact @swap_unit. Qed.
 Print Assumptions C11_swap_unit.
